@@ -97,21 +97,21 @@ def run(ck):
 
 
 # ---------------------------------------------------------------------- R1
-def r1(ck, F):
+def r1(ck, F, rid="C02.R1"):
     SC = D + "SCOPED_COUNT"
     adds = atomic_calls(F, SC, {"fetch_add"})
     subs = atomic_calls(F, SC, {"fetch_sub"})
     others = [x for x in atomic_calls(F, SC) if x[3] not in ("fetch_add", "fetch_sub", "load")]
     setd = F.body(D + "State::set_default")
     dropg = F.body("<%sDefaultGuard as core::ops::drop::Drop>::drop" % D)
-    if not (ck.anchor("C02.R1", "State::set_default", setd) and ck.anchor("C02.R1", "Drop for DefaultGuard", dropg)):
+    if not (ck.anchor(rid, "State::set_default", setd) and ck.anchor(rid, "Drop for DefaultGuard", dropg)):
         return
     # increments only in set_default, exactly once on every return path
     bad_sites = [b.path for b, _, _, _ in adds if b is not setd] + [b.path for b, _, _, _ in others]
     if bad_sites:
-        ck.bad("C02.R1", "SCOPED_COUNT writers", bad_sites[0], "SCOPED_COUNT is modified outside set_default/guard drop: %s" % bad_sites)
+        ck.bad(rid, "SCOPED_COUNT writers", bad_sites[0], "SCOPED_COUNT is modified outside set_default/guard drop: %s" % bad_sites)
     else:
-        ck.ok("C02.R1", "SCOPED_COUNT writers", detail=dict(fetch_add=[b.path for b, *_ in adds], fetch_sub=[b.path for b, *_ in subs]))
+        ck.ok(rid, "SCOPED_COUNT writers", detail=dict(fetch_add=[b.path for b, *_ in adds], fetch_sub=[b.path for b, *_ in subs]))
     for fn, sites, what in ((setd, adds, "fetch_add"), (dropg, subs, "fetch_sub")):
         mine = [bb for b, bb, t, m in sites if b is fn]
         counts = set()
@@ -120,29 +120,29 @@ def r1(ck, F):
                 counts.add(sum(1 for bb in p.blocks if bb in mine))
         key = "%s once per path in %s" % (what, fn.path.replace(D, ""))
         if counts == {1}:
-            ck.ok("C02.R1", key, fn=fn.path)
+            ck.ok(rid, key, fn=fn.path)
         else:
-            ck.bad("C02.R1", key, where(fn.raw["sp"]), "%s executes %s times on some return path (expected exactly 1)" % (what, sorted(counts)), fn=fn.path)
+            ck.bad(rid, key, where(fn.raw["sp"]), "%s executes %s times on some return path (expected exactly 1)" % (what, sorted(counts)), fn=fn.path)
     foreign = [b.path for b, _, _, _ in subs if b is not dropg]
     if foreign:
-        ck.bad("C02.R1", "fetch_sub only in guard drop", foreign[0], "SCOPED_COUNT decremented in %s" % foreign)
+        ck.bad(rid, "fetch_sub only in guard drop", foreign[0], "SCOPED_COUNT decremented in %s" % foreign)
     # fetch_add amount 1 / fetch_sub amount 1 and orderings >= Release
     for b, bb, t, m in adds + subs:
         amt = b.origin(t["argv"][1])
         o = ordering_of(b, t["argv"][2])
         key = "%s amount/order in %s" % (m, b.path.replace(D, ""))
         if amt[0] == "const" and amt[1].get("int") == 1 and ORD_RANK.get(o, 0) >= 1:
-            ck.ok("C02.R1", key, detail="%s(1, %s)" % (m, o))
+            ck.ok(rid, key, detail="%s(1, %s)" % (m, o))
         else:
-            ck.bad("C02.R1", key, where(t["sp"]), "%s(%s, %s): expected amount 1 and ordering >= Release" % (m, amt[1] if amt[0] == 'const' else amt[0], o))
+            ck.bad(rid, key, where(t["sp"]), "%s(%s, %s): expected amount 1 and ordering >= Release" % (m, amt[1] if amt[0] == 'const' else amt[0], o))
     # the Acquire load pairs with them
     for b, bb, t, m in atomic_calls(F, SC, {"load"}):
         o = ordering_of(b, t["argv"][1])
         key = "load order in %s" % b.path.replace(D, "")
         if ORD_RANK.get(o, 0) >= 1 and o != "Release":
-            ck.ok("C02.R1", key, detail=o)
+            ck.ok(rid, key, detail=o)
         else:
-            ck.bad("C02.R1", key, where(t["sp"]), "SCOPED_COUNT.load(%s): needs Acquire or stronger" % o)
+            ck.bad(rid, key, where(t["sp"]), "SCOPED_COUNT.load(%s): needs Acquire or stronger" % o)
     # DefaultGuard is constructed only in State::set_default
     makers = []
     for b in F.body_list:
@@ -153,9 +153,9 @@ def r1(ck, F):
             if "agg" in rv and rv["agg"].get("adt") == D + "DefaultGuard":
                 makers.append(b.path)
     if makers == [setd.path]:
-        ck.ok("C02.R1", "DefaultGuard constructed only in State::set_default")
+        ck.ok(rid, "DefaultGuard constructed only in State::set_default")
     else:
-        ck.bad("C02.R1", "DefaultGuard constructed only in State::set_default", str(makers), "DefaultGuard values are built in %s" % makers)
+        ck.bad(rid, "DefaultGuard constructed only in State::set_default", str(makers), "DefaultGuard values are built in %s" % makers)
     # the guard saves the value that `replace` displaced (the prior default)
     clos = F.closures_of(setd)
     repl = [(c, bb, t) for c in clos for bb, t in c.calls() if t["callee"].get("method") == "replace" and "RefCell" in t["callee"]["path"]]
@@ -173,9 +173,9 @@ def r1(ck, F):
         returns_prior = any(p.ret and p.ret[0] == "call" and p.ret[3] == bb for p in PathEval(c).run() if p.end == "return")
         ok = fields[-1:] == ["default"] and good_store and returns_prior
     if ok:
-        ck.ok("C02.R1", "set_default stores Some(new) and keeps the displaced prior", fn=setd.path)
+        ck.ok(rid, "set_default stores Some(new) and keeps the displaced prior", fn=setd.path)
     else:
-        ck.bad("C02.R1", "set_default stores Some(new) and keeps the displaced prior", where(setd.raw["sp"]),
+        ck.bad(rid, "set_default stores Some(new) and keeps the displaced prior", where(setd.raw["sp"]),
                "expected exactly one `state.default.replace(Some(new_dispatch))` whose result is returned to the guard")
     # guard drop writes the saved prior back: replace(self.0.take())
     dclos = F.closures_of(dropg)
@@ -193,9 +193,9 @@ def r1(ck, F):
             from_self = True
         ok = fields[-1:] == ["default"] and from_self
     if ok:
-        ck.ok("C02.R1", "guard drop restores the saved prior", fn=dropg.path)
+        ck.ok(rid, "guard drop restores the saved prior", fn=dropg.path)
     else:
-        ck.bad("C02.R1", "guard drop restores the saved prior", where(dropg.raw["sp"]),
+        ck.bad(rid, "guard drop restores the saved prior", where(dropg.raw["sp"]),
                "expected exactly one `state.default.replace(<value taken from self.0>)` in Drop for DefaultGuard")
     # ... unconditionally: every returning path of the guard's drop decrements the scope count and (tries to) write the
     # prior back; a drop that bails out early (e.g. while panicking) leaves the dead scope's collector installed
@@ -212,12 +212,12 @@ def r1(ck, F):
             conds = [show(c[0])[:60] for c in p.conds]
             probs.append("a returning path skips the write-back of the prior default (conditions: %s)" % conds)
     if n and not probs:
-        ck.ok("C02.R1", "guard drop restores and decrements on every path", fn=dropg.path, detail="%d path(s)" % n)
+        ck.ok(rid, "guard drop restores and decrements on every path", fn=dropg.path, detail="%d path(s)" % n)
     else:
-        ck.bad("C02.R1", "guard drop restores and decrements on every path", where(dropg.raw["sp"]), "; ".join(sorted(set(probs))) or "no returning path", fn=dropg.path)
+        ck.bad(rid, "guard drop restores and decrements on every path", where(dropg.raw["sp"]), "; ".join(sorted(set(probs))) or "no returning path", fn=dropg.path)
     # with_default: the guard is dropped on the normal and on the unwind path of f()
     wd = F.body(D + "with_default")
-    if ck.anchor("C02.R1", "with_default", wd):
+    if ck.anchor(rid, "with_default", wd):
         sd = [bb for bb, t in wd.calls() if t["callee"]["path"] == D + "set_default"]
         fcall = [bb for bb, t in wd.calls() if t["callee"].get("method") == "call_once"]
         ok = len(sd) == 1 and len(fcall) == 1 and wd.dominates(sd[0], fcall[0])
@@ -226,10 +226,10 @@ def r1(ck, F):
             drops = drop_blocks(wd, guard_local)
             ok = not dropped_on_all_exits(wd, fcall[0], drops)
         if ok:
-            ck.ok("C02.R1", "with_default restores on return and on panic", fn=wd.path,
+            ck.ok(rid, "with_default restores on return and on panic", fn=wd.path,
                   detail="guard local _%d dropped on both the return and the unwind edge of f()" % guard_local)
         else:
-            ck.bad("C02.R1", "with_default restores on return and on panic", where(wd.raw["sp"]),
+            ck.bad(rid, "with_default restores on return and on panic", where(wd.raw["sp"]),
                    "the DefaultGuard is not dropped on every path after f() (including unwinding)")
 
 
